@@ -1,10 +1,436 @@
 (* C07 - sub-selection, padding and resampling keep every value at its physical position.
-   ONLY statements closed by [exact], each followed by Print Assumptions. *)
-From DF Require Import Prelude Constants_gen Region Mesh Select C07_axis.
+   ONLY statements closed by [exact], each followed by Print Assumptions.
+   Per-axis statements quantify over every axis lo < hi with k > 0 cells (geometry in Q);
+   field statements over every value type V. *)
+From DF Require Import Prelude Constants_gen Region Mesh Select C01_axis C07_axis C07_nd C07_examples.
 Open Scope Q_scope.
 
-(* inside the source every padding mode is the identity index map *)
-Theorem C07_pad_interior (md : pmode) (k j : Z) :
-  (0 <= j < k)%Z -> pad_src md k j = Some j.
-Proof. exact (pad_src_interior md k j). Qed.
+(* pointwise: inside the block the source cell of a point is the block cell shifted by the offset (range selection, extraction by region / name) *)
+Theorem C07_pointwise_block :
+  forall (lo hi : Q) (k : Z),
+       lo < hi ->
+       (0 < k)%Z ->
+       forall (off cnt : Z) (lo' hi' : Q),
+       (0 < cnt)%Z ->
+       lo' == lo + inject_Z off * cell_of lo hi k ->
+       hi' == lo + inject_Z (off + cnt) * cell_of lo hi k ->
+       forall q : Q,
+       (0 <= off)%Z ->
+       (off + cnt <= k)%Z ->
+       lo' <= q -> q < hi' -> p2i1 lo (cell_of lo hi k) k q = (p2i1 lo' (cell_of lo' hi' cnt) cnt q + off)%Z.
+Proof. exact (@block_index_shift). Qed.
+Print Assumptions C07_pointwise_block.
+
+(* pointwise, padding: inside the source the padded mesh addresses the same cell, shifted by the pad width *)
+Theorem C07_pointwise_pad :
+  forall (lo hi : Q) (k : Z),
+       lo < hi ->
+       (0 < k)%Z ->
+       forall (off cnt : Z) (lo' hi' : Q),
+       (0 < cnt)%Z ->
+       lo' == lo + inject_Z off * cell_of lo hi k ->
+       hi' == lo + inject_Z (off + cnt) * cell_of lo hi k ->
+       forall q : Q,
+       lo <= q ->
+       q < hi ->
+       (off <= 0)%Z ->
+       (k <= off + cnt)%Z -> p2i1 lo (cell_of lo hi k) k q = (p2i1 lo' (cell_of lo' hi' cnt) cnt q + off)%Z.
+Proof. exact (@block_index_shift_pad). Qed.
+Print Assumptions C07_pointwise_pad.
+
+(* cell centres of a block are source cell centres *)
+Theorem C07_block_centres :
+  forall (lo hi : Q) (k off cnt : Z) (lo' hi' : Q),
+       (0 < cnt)%Z ->
+       lo' == lo + inject_Z off * cell_of lo hi k ->
+       hi' == lo + inject_Z (off + cnt) * cell_of lo hi k ->
+       forall j : Z, i2p1 lo' (cell_of lo' hi' cnt) j == i2p1 lo (cell_of lo hi k) (j + off).
+Proof. exact (@block_centres). Qed.
+Print Assumptions C07_block_centres.
+
+(* cell size of a block is the source cell size *)
+Theorem C07_block_cell :
+  forall (lo hi : Q) (k off cnt : Z) (lo' hi' : Q),
+       (0 < cnt)%Z ->
+       lo' == lo + inject_Z off * cell_of lo hi k ->
+       hi' == lo + inject_Z (off + cnt) * cell_of lo hi k -> cell_of lo' hi' cnt == cell_of lo hi k.
+Proof. exact (@block_cell). Qed.
+Print Assumptions C07_block_cell.
+
+(* Mesh(region=block, cell=source cell) recovers the number of kept cells *)
+Theorem C07_block_count :
+  forall (lo hi : Q) (k : Z),
+       lo < hi ->
+       (0 < k)%Z ->
+       forall (off cnt : Z) (lo' hi' : Q),
+       lo' == lo + inject_Z off * cell_of lo hi k ->
+       hi' == lo + inject_Z (off + cnt) * cell_of lo hi k ->
+       Qround_half_even ((hi' - lo') / cell_of lo hi k) = cnt.
+Proof. exact (@block_count). Qed.
+Print Assumptions C07_block_count.
+
+(* values and validity of a range selection are the source's at the index shifted by the first kept cell *)
+Theorem C07_pointwise_range_values :
+  forall (V : Type) (F : field V) (a : nat) (x1 x2 : Q) (R : field V),
+       field_sel F a (SRange x1 x2) = OK (FField R) ->
+       exists ilo ihi : Z,
+         sel_convert (fmesh F) a (SRange x1 x2) = OK (IRange ilo ihi) /\
+         mesh_sel_range (fmesh F) a ilo ihi = OK (fmesh R) /\
+         (forall i : list Z,
+          fval R i = fval F (shift_nth a ilo i) /\ fvalid R i = fvalid F (shift_nth a ilo i)).
+Proof. exact (@field_sel_range_values). Qed.
+Print Assumptions C07_pointwise_range_values.
+
+(* values and validity of a plane selection are the source's with the plane index re-inserted *)
+Theorem C07_pointwise_plane_values :
+  forall (V : Type) (F : field V) (a : nat) (s : selarg) (R : field V),
+       (forall x1 x2 : Q, s <> SRange x1 x2) ->
+       field_sel F a s = OK (FField R) ->
+       exists k : Z,
+         sel_convert (fmesh F) a s = OK (IPlane k) /\
+         mesh_sel_plane (fmesh F) a k = OK (fmesh R) /\
+         (forall i : list Z, fval R i = fval F (insert_nth a k i) /\ fvalid R i = fvalid F (insert_nth a k i)).
+Proof. exact (@field_sel_plane_values). Qed.
+Print Assumptions C07_pointwise_plane_values.
+
+(* plane selection of a one-dimensional field: the bare value of the selected cell *)
+Theorem C07_pointwise_plane_1d :
+  forall (V : Type) (F : field V) (a : nat) (s : selarg) (v : V),
+       field_sel F a s = OK (FValue v) ->
+       exists k : Z, sel_convert (fmesh F) a s = OK (IPlane k) /\ v = fval F [k].
+Proof. exact (@field_sel_plane_1d). Qed.
+Print Assumptions C07_pointwise_plane_1d.
+
+(* values and validity of an extracted block are the source's at the index shifted by the block offset *)
+Theorem C07_pointwise_block_values :
+  forall (V : Type) (F : field V) (sub : mesh) (R : field V),
+       field_block F sub = OK R ->
+       fmesh R = sub /\
+       (exists off : list Z,
+          block_offset (fmesh F) sub = OK off /\
+          (forall i : list Z, fval R i = fval F (add_idx i off) /\ fvalid R i = fvalid F (add_idx i off))).
+Proof. exact (@field_block_values). Qed.
+Print Assumptions C07_pointwise_block_values.
+
+(* values and validity of a padded field follow the mode's index map; constant mode fills 0 / False *)
+Theorem C07_pointwise_pad_values :
+  forall (V : Type) (zero : V) (F : field V) (pw : list (Z * Z)) (md : pmode) (R : field V),
+       field_pad zero F pw md = OK R ->
+       mesh_pad (fmesh F) pw = OK (fmesh R) /\
+       (forall i : list Z,
+        match pad_index md (n (fmesh F)) pw i with
+        | Some s => fval R i = fval F s /\ fvalid R i = fvalid F s
+        | None => fval R i = zero /\ fvalid R i = false
+        end).
+Proof. exact (@field_pad_values). Qed.
+Print Assumptions C07_pointwise_pad_values.
+
+(* interior cells of a padded field read their own source cell in every mode *)
+Theorem C07_pad_interior_index :
+  forall (md : pmode) (ns : list Z) (pw : list (Z * Z)) (j : list Z),
+       Datatypes.length pw = Datatypes.length ns ->
+       Datatypes.length j = Datatypes.length ns ->
+       (forall a : nat, (a < Datatypes.length ns)%nat -> (0 <= nth a j 0 < nth a ns 0)%Z) ->
+       pad_index md ns pw (map2 (fun (x : Z) (w : Z * Z) => (x + fst w)%Z) j pw) = Some j.
+Proof. exact (@pad_index_interior). Qed.
+Print Assumptions C07_pad_interior_index.
+
+(* a coordinate lo<=x<=hi is looked up in a cell of the axis whose closed extent contains it (half-open below the upper face) *)
+Theorem C07_cell_of_coord :
+  forall (lo hi : Q) (k : Z),
+       lo < hi ->
+       (0 < k)%Z ->
+       forall x : Q,
+       lo <= x ->
+       x <= hi ->
+       let i := p2i1 lo (cell_of lo hi k) k x in
+       (0 <= i < k)%Z /\
+       lo + inject_Z i * cell_of lo hi k <= x /\
+       x <= lo + (inject_Z i + 1) * cell_of lo hi k /\
+       (x < hi -> x < lo + (inject_Z i + 1) * cell_of lo hi k).
+Proof. exact (@cell_of_coord). Qed.
+Print Assumptions C07_cell_of_coord.
+
+(* plane: the removed axis is cut at the cell containing the requested coordinate *)
+Theorem C07_plane :
+  forall m : mesh,
+       wf_mesh m ->
+       forall (a : nat) (x : Q) (k : Z),
+       (a < Datatypes.length (pmin (reg m)))%nat ->
+       sel_convert m a (SPoint x) = OK (IPlane k) ->
+       let lo := nth a (pmin (reg m)) 0 in
+       let c := nth a (cell m) 0 in
+       (0 <= k < nth a (n m) 1)%Z /\
+       lo + inject_Z k * c <= x /\
+       x <= lo + (inject_Z k + 1) * c /\ (x < nth a (pmax (reg m)) 0 -> x < lo + (inject_Z k + 1) * c).
+Proof. exact (@plane_index). Qed.
+Print Assumptions C07_plane.
+
+(* range: first and last kept index, ordered, in range, each containing its end of the range *)
+Theorem C07_range_indices :
+  forall m : mesh,
+       wf_mesh m ->
+       forall (a : nat) (x1 x2 : Q) (i1 i2 : Z),
+       (a < Datatypes.length (pmin (reg m)))%nat ->
+       sel_convert m a (SRange x1 x2) = OK (IRange i1 i2) ->
+       let lo := nth a (pmin (reg m)) 0 in
+       let c := nth a (cell m) 0 in
+       (0 <= i1)%Z /\
+       (i1 <= i2)%Z /\
+       (i2 < nth a (n m) 1)%Z /\
+       lo + inject_Z i1 * c <= Qmin x1 x2 /\
+       Qmin x1 x2 <= lo + (inject_Z i1 + 1) * c /\
+       lo + inject_Z i2 * c <= Qmax x1 x2 <= lo + (inject_Z i2 + 1) * c.
+Proof. exact (@range_indices). Qed.
+Print Assumptions C07_range_indices.
+
+(* range: the kept cells are exactly idx(x1)..idx(x2), the region is their union, cell size and count follow *)
+Theorem C07_range_exact :
+  forall (lo hi : Q) (k : Z),
+       lo < hi ->
+       (0 < k)%Z ->
+       forall x1 x2 : Q,
+       lo <= x1 ->
+       x1 <= x2 ->
+       x2 <= hi ->
+       let i1 := p2i1 lo (cell_of lo hi k) k x1 in
+       let i2 := p2i1 lo (cell_of lo hi k) k x2 in
+       let min_val := i2p1 lo (cell_of lo hi k) i1 - cell_of lo hi k / 2 in
+       let max_val := i2p1 lo (cell_of lo hi k) i2 + cell_of lo hi k / 2 in
+       (0 <= i1)%Z /\
+       (i1 <= i2)%Z /\
+       (i2 < k)%Z /\
+       min_val == lo + inject_Z i1 * cell_of lo hi k /\
+       max_val == lo + inject_Z (i1 + (i2 - i1 + 1)) * cell_of lo hi k /\
+       min_val <= x1 /\
+       x2 <= max_val /\
+       lo <= min_val /\
+       max_val <= hi /\
+       Qround_half_even ((max_val - min_val) / cell_of lo hi k) = (i2 - i1 + 1)%Z /\
+       cell_of min_val max_val (i2 - i1 + 1) == cell_of lo hi k.
+Proof. exact (@range_exact). Qed.
+Print Assumptions C07_range_exact.
+
+(* extraction by region: floor / ceil-1 give a whole-cell block containing the region and contained in every such block *)
+Theorem C07_block_minimal :
+  forall (lo hi : Q) (k : Z),
+       lo < hi ->
+       (0 < k)%Z ->
+       forall x0 x1 : Q,
+       lo <= x0 ->
+       x0 < x1 ->
+       x1 <= hi ->
+       let a := p2i1 lo (cell_of lo hi k) k x0 in
+       let b := upper_idx1 lo (cell_of lo hi k) x1 in
+       (0 <= a)%Z /\
+       (a <= b)%Z /\
+       (b < k)%Z /\
+       lo + inject_Z a * cell_of lo hi k <= x0 /\
+       x1 <= lo + (inject_Z b + 1) * cell_of lo hi k /\
+       (forall a' b' : Z,
+        lo + inject_Z a' * cell_of lo hi k <= x0 ->
+        x1 <= lo + (inject_Z b' + 1) * cell_of lo hi k -> (a' <= a)%Z /\ (b <= b')%Z).
+Proof. exact (@block_minimal). Qed.
+Print Assumptions C07_block_minimal.
+
+(* the corners handed to the constructor are the faces of that block *)
+Theorem C07_block_corners :
+  forall (lo hi : Q) (k a b : Z),
+       half_down (i2p1 lo (cell_of lo hi k) a) (cell_of lo hi k) == lo + inject_Z a * cell_of lo hi k /\
+       half_up (i2p1 lo (cell_of lo hi k) b) (cell_of lo hi k) ==
+       lo + inject_Z (a + (b - a + 1)) * cell_of lo hi k.
+Proof. exact (@getitem_corners). Qed.
+Print Assumptions C07_block_corners.
+
+(* region2slices of a cell-aligned region selects exactly its cells *)
+Theorem C07_slices :
+  forall (lo hi : Q) (k : Z),
+       lo < hi ->
+       (0 < k)%Z ->
+       forall a b : Z,
+       (0 <= a)%Z ->
+       (a <= b)%Z ->
+       (b < k)%Z ->
+       p2i1 lo (cell_of lo hi k) k (half_up (lo + inject_Z a * cell_of lo hi k) (cell_of lo hi k)) = a /\
+       p2i1 lo (cell_of lo hi k) k (half_down (lo + inject_Z (b + 1) * cell_of lo hi k) (cell_of lo hi k)) =
+       b.
+Proof. exact (@slices_aligned). Qed.
+Print Assumptions C07_slices.
+
+(* padding adds the requested number of cells per side, cell size unchanged *)
+Theorem C07_pad_counts :
+  forall (lo hi : Q) (k : Z),
+       lo < hi ->
+       (0 < k)%Z ->
+       forall w : Z * Z,
+       (0 <= fst w)%Z ->
+       (0 <= snd w)%Z ->
+       let lo' := pad_lo lo (cell_of lo hi k) w in
+       let hi' := pad_hi hi (cell_of lo hi k) w in
+       lo' == lo + inject_Z (- fst w) * cell_of lo hi k /\
+       hi' == lo + inject_Z (- fst w + (k + fst w + snd w)) * cell_of lo hi k /\
+       Qround_half_even ((hi' - lo') / cell_of lo hi k) = (k + fst w + snd w)%Z /\
+       cell_of lo' hi' (k + fst w + snd w) == cell_of lo hi k.
+Proof. exact (@pad_axis). Qed.
+Print Assumptions C07_pad_counts.
+
+(* every padding mode is the identity inside the source *)
+Theorem C07_pad_interior :
+  forall (md : pmode) (k j : Z), (0 <= j < k)%Z -> pad_src md k j = Some j.
+Proof. exact (@pad_src_interior). Qed.
 Print Assumptions C07_pad_interior.
+
+(* every padding mode reads source cells only *)
+Theorem C07_pad_reads_source :
+  forall (md : pmode) (k j s : Z), (0 < k)%Z -> pad_src md k j = Some s -> (0 <= s < k)%Z.
+Proof. exact (@pad_src_range). Qed.
+Print Assumptions C07_pad_reads_source.
+
+(* constant mode fills exactly the added cells *)
+Theorem C07_pad_constant :
+  forall k j : Z, pad_src PConstant k j = None <-> ~ (0 <= j < k)%Z.
+Proof. exact (@pad_src_constant). Qed.
+Print Assumptions C07_pad_constant.
+
+(* edge mode repeats the nearest edge cell *)
+Theorem C07_pad_edge :
+  forall k j : Z,
+       (0 < k)%Z ->
+       pad_src PEdge k j = Some (if (j <? 0)%Z then 0%Z else if (k <=? j)%Z then (k - 1)%Z else j).
+Proof. exact (@pad_src_edge). Qed.
+Print Assumptions C07_pad_edge.
+
+(* wrap mode is periodic continuation *)
+Theorem C07_pad_wrap :
+  forall k j : Z, (0 < k)%Z -> pad_src PWrap k j = Some (j mod k)%Z.
+Proof. exact (@pad_src_wrap). Qed.
+Print Assumptions C07_pad_wrap.
+
+(* negative pad widths are rejected *)
+Theorem C07_pad_negative :
+  forall (V : Type) (zero : V) (F : field V) (pw : list (Z * Z)) (md : pmode),
+       (exists w : Z * Z, In w pw /\ ((fst w < 0)%Z \/ (snd w < 0)%Z)) -> field_pad zero F pw md = Err ValueE.
+Proof. exact (@field_pad_negative). Qed.
+Print Assumptions C07_pad_negative.
+
+(* resampling keeps the region, takes the requested resolution, reads the nearest source cell *)
+Theorem C07_resample_region :
+  forall (V : Type) (F : field V) (n' : list Z) (R : field V),
+       field_resample F n' = OK R ->
+       reg (fmesh R) = reg (fmesh F) /\
+       n (fmesh R) = n' /\
+       (forall j : list Z,
+        fval R j = fval F (resample_src (fmesh F) (fmesh R) j) /\
+        fvalid R j = fvalid F (resample_src (fmesh F) (fmesh R) j)).
+Proof. exact (@resample_region). Qed.
+Print Assumptions C07_resample_region.
+
+(* a nearest source centre belongs to a cell that contains the new centre *)
+Theorem C07_resample_nearest_contains :
+  forall (lo hi : Q) (k : Z),
+       lo < hi ->
+       (0 < k)%Z ->
+       forall (q : Q) (i : Z),
+       lo <= q ->
+       q <= hi ->
+       is_nearest lo hi k q i ->
+       lo + inject_Z i * cell_of lo hi k <= q <= lo + (inject_Z i + 1) * cell_of lo hi k.
+Proof. exact (@nearest_contains). Qed.
+Print Assumptions C07_resample_nearest_contains.
+
+(* the cell containing the new centre is a nearest cell (the modelled pick is admissible) *)
+Theorem C07_resample_pick_nearest :
+  forall (lo hi : Q) (k : Z),
+       lo < hi ->
+       (0 < k)%Z ->
+       forall q : Q, lo <= q -> q <= hi -> is_nearest lo hi k q (nearest_pick lo (cell_of lo hi k) k q).
+Proof. exact (@pick_is_nearest). Qed.
+Print Assumptions C07_resample_pick_nearest.
+
+(* the checker's boolean nearest test is the nearest relation *)
+Theorem C07_resample_nearestb :
+  forall (lo hi : Q) (k : Z),
+       (0 < k)%Z ->
+       forall (q : Q) (i : Z), nearestb lo (cell_of lo hi k) k q i = true <-> is_nearest lo hi k q i.
+Proof. exact (@nearestb_spec). Qed.
+Print Assumptions C07_resample_nearestb.
+
+(* malformed resolutions are rejected *)
+Theorem C07_resample_rejects :
+  forall (V : Type) (F : field V) (n' : list Z),
+       Datatypes.length n' <> ndim (reg (fmesh F)) \/ (exists k : Z, In k n' /\ (k <= 0)%Z) ->
+       is_ok (field_resample F n') = false.
+Proof. exact (@resample_rejects). Qed.
+Print Assumptions C07_resample_rejects.
+
+(* a plane coordinate outside the region is rejected *)
+Theorem C07_reject_outside_point :
+  forall (V : Type) (F : field V) (a : nat) (x : Q),
+       let m := fmesh F in
+       x < nth a (pmin (reg m)) 0 \/ nth a (pmax (reg m)) 0 < x ->
+       is_ok (mesh_sel m a (SPoint x)) = false /\ is_ok (field_sel F a (SPoint x)) = false.
+Proof. exact (@sel_point_outside). Qed.
+Print Assumptions C07_reject_outside_point.
+
+(* a range with an end outside the region is rejected *)
+Theorem C07_reject_outside_range :
+  forall (V : Type) (F : field V) (a : nat) (x1 x2 : Q),
+       let m := fmesh F in
+       Qmin x1 x2 < nth a (pmin (reg m)) 0 \/ nth a (pmax (reg m)) 0 < Qmax x1 x2 ->
+       is_ok (mesh_sel m a (SRange x1 x2)) = false /\ is_ok (field_sel F a (SRange x1 x2)) = false.
+Proof. exact (@sel_range_outside). Qed.
+Print Assumptions C07_reject_outside_range.
+
+(* an unknown axis is rejected *)
+Theorem C07_reject_unknown_axis :
+  forall (V : Type) (F : field V) (a : nat) (s : selarg),
+       (ndim (reg (fmesh F)) <= a)%nat ->
+       is_ok (mesh_sel (fmesh F) a s) = false /\ is_ok (field_sel F a s) = false.
+Proof. exact (@sel_unknown_axis). Qed.
+Print Assumptions C07_reject_unknown_axis.
+
+(* a region that is not contained in the mesh region is rejected *)
+Theorem C07_reject_outside_region :
+  forall (V : Type) (F : field V) (item : region),
+       contains_region (reg (fmesh F)) item = false ->
+       is_ok (getitem_region (fmesh F) item) = false /\ is_ok (field_getitem_region F item) = false.
+Proof. exact (@getitem_outside). Qed.
+Print Assumptions C07_reject_outside_region.
+
+(* a region with a corner farther than the tolerance outside is rejected *)
+Theorem C07_reject_outside_corner :
+  forall (m : mesh) (item : region),
+       wf_mesh m ->
+       (exists a : nat,
+          (a < Datatypes.length (pmin (reg m)))%nat /\
+          (let x := nth a (pmax item) 0 in
+           let t := tau (tf (reg m)) (reg_atol (reg m)) x in nth a (pmax (reg m)) 0 + t < x)) ->
+       is_ok (getitem_region m item) = false.
+Proof. exact (@getitem_corner_outside). Qed.
+Print Assumptions C07_reject_outside_corner.
+
+(* non-vacuity: concrete states satisfying the hypotheses of the implications above *)
+Example C07_pointwise_block_nonvacuous :
+  0 < 4 /\ (0 < 4)%Z /\ (0 < 2)%Z /\ 1 == 0 + inject_Z 1 * cell_of 0 4 4 /\
+  3 == 0 + inject_Z (1 + 2) * cell_of 0 4 4 /\ (0 <= 1)%Z /\ (1 + 2 <= 4)%Z /\ 1 <= (3 # 2) /\ (3 # 2) < 3 /\
+  p2i1 0 (cell_of 0 4 4) 4 (3 # 2) = 1%Z.
+Proof. exact ex_block. Qed.
+Print Assumptions C07_pointwise_block_nonvacuous.
+
+Example C07_block_minimal_nonvacuous :
+  0 < 4 /\ (0 < 4)%Z /\ 0 <= (5 # 4) /\ (5 # 4) < (5 # 2) /\ (5 # 2) <= 4 /\
+  p2i1 0 (cell_of 0 4 4) 4 (5 # 4) = 1%Z /\ upper_idx1 0 (cell_of 0 4 4) (5 # 2) = 2%Z.
+Proof. exact ex_minimal. Qed.
+Print Assumptions C07_block_minimal_nonvacuous.
+
+Example C07_resample_nonvacuous :
+  is_nearest 0 4 4 2 1 /\ is_nearest 0 4 4 2 2 /\ nearest_pick 0 (cell_of 0 4 4) 4 2 = 2%Z.
+Proof. exact ex_nearest. Qed.
+Print Assumptions C07_resample_nonvacuous.
+
+Example C07_sel_nonvacuous :
+  sel_convert ex_mesh 1 (SRange (5 # 2) (1 # 2)) = OK (IRange 0 2) /\
+  sel_convert ex_mesh 0 (SPoint 1) = OK (IPlane 1) /\ sel_convert ex_mesh 0 SCentre = OK (IPlane 1) /\
+  is_ok (sel_convert ex_mesh 0 (SPoint (5 # 2))) = false.
+Proof. exact ex_sel. Qed.
+Print Assumptions C07_sel_nonvacuous.
